@@ -293,6 +293,11 @@ def check(prop, mod, tier, seed, replay, scratch, t0, lines):
         for i in range(len(obligations)):
             pass
 
+    if os.environ.get("VERIF_DEBUG"):
+        with open(os.environ["VERIF_DEBUG"], "w") as fh:
+            json.dump({"mismatch": [{"i": i, "input": cases[i].desc, "obs": cases[i].obs, "coq": cases[i].coq} for i in mism[:40]],
+                       "violation": [{"i": i, "known": known.get(i, 0), "input": cases[i].desc, "obs": cases[i].obs} for i in viol[:200]]},
+                      fh, indent=1, default=str)
     open_known = load_known(prop)
     violations = []       # (case, reason)
     known_hits = {}
